@@ -5,7 +5,7 @@ WS_ALPHA = b' \nA<'
 TOK_ALPHA = b'<>?!/-="\'\n a0x'
 HDR_ALPHA = b'=?>"\' av'
 
-LEX_FINDERS = [dict(module='lexer', check='lex', alphabet=TOK_ALPHA, maxlen=4),
+LEX_FINDERS = [dict(module='lexer', check='lex', alphabet=TOK_ALPHA, maxlen=5),
                dict(module='lexer', check='lex', alphabet=HDR_ALPHA, maxlen=5, prefix=b'<?xml ')]
 
 
